@@ -327,6 +327,10 @@ def cases(ctx):
             w = wire_of(t, cl, vals, o)
             if w is not None:
                 specimens.append((cl, vals, o, w))
+        for w in R.dec_corners(t):
+            ctx.count("dec:noncanonical")
+            yield dec_case(real_class(t), t["rdtype"], w, 0, len(w), None)
+            yield dec_case(real_class(t), t["rdtype"], b"\x07example\x00" + w + b"\x00", 9, len(w), None)
         if t["kind"] == "schema" and rng.random() < 0.5:
             # a deliberately out-of-range value: constructor must refuse, model says ValueError
             vals, o = specimen(rng, t)
